@@ -180,6 +180,16 @@ func main() {
 		}
 	}
 
+	if *tier == "thorough" && !*noEvidence && !broken && res.count(StViolated) == 0 {
+		if ws := runWitnesses(p, *repo, *verif); len(ws) > 0 {
+			cov, silent := summariseWitnesses(ws)
+			res.extraCov = map[string]any{"fault_witnesses": cov}
+			fmt.Printf("   fault witnesses: %d mutants and seeded changes of %s, %d applied to a scratch copy of this tree, %d re-detected\n", cov["mutants"], p.ID, cov["applied"], cov["re_detected"])
+			for _, s := range silent {
+				fmt.Printf("WITNESS-SILENT: %s applies to this tree but the check does not report it\n", s)
+			}
+		}
+	}
 	if !*noEvidence && !broken {
 		if err := res.writeEvidence(filepath.Join(*verif, "evidence", p.ID+".json"), seed, cmd); err != nil {
 			fmt.Fprintln(os.Stderr, "pcheck: writing evidence:", err)
